@@ -1275,3 +1275,27 @@ pub fn big_program_with(p: &mut Prng, ordered: bool) -> String {
     let body = terms.join(&format!(" {fold} "));
     format!("pub fn main({sig}) -> {ty} {{\n    {body}\n}}\n")
 }
+
+/// Deeply nested expressions: `((((x * 3u8) ^ 1u8) & 255u8) ...)`, `depth` levels, with constant
+/// multiplications at the innermost level and sprinkled on the way out. Whatever the compiler
+/// decides by looking at how deep it is (recursion depth, stack use) is decided here.
+pub fn deep_program(p: &mut Prng, depth: usize) -> String {
+    let ty = *p.pick(&["u8", "u8", "u16", "i8"]);
+    let mut e = format!("(x * 3{ty})");
+    for k in 0..depth {
+        let lit = match ty {
+            "i8" => format!("{}i8", k % 100),
+            _ => format!("{}{ty}", k % 200),
+        };
+        e = match p.below(12) {
+            // one more constant multiplication near the bottom only: each one compiles its operand
+            // several times, so sprinkling them all the way up would be exponential
+            0 if k < 3 => format!("({e} * 3{ty})"),
+            1 => format!("({e} & y)"),
+            2 | 3 => format!("({e} | {lit})"),
+            4 => format!("(y ^ {e})"),
+            _ => format!("({e} ^ {lit})"),
+        };
+    }
+    format!("pub fn main(x: {ty}, y: {ty}) -> {ty} {{\n    {e}\n}}\n")
+}
